@@ -429,7 +429,13 @@ func Do(c Caller, form, codec, method string, spec svc.Spec, bufCap int, opt *Do
 			buf[i] = 0xA5
 		}
 		rec.Buf = buf
-		ctx = context.WithValue(ctx, rpc.BufferContextKey, buf[:0])
+		if spec.Counter%2 == 0 {
+			// a buffer handed over with its full length (its contents are the
+			// caller's business: here the canary pattern)
+			ctx = context.WithValue(ctx, rpc.BufferContextKey, buf)
+		} else {
+			ctx = context.WithValue(ctx, rpc.BufferContextKey, buf[:0])
+		}
 		rec.Err = c.CallWithContext(ctx, method, inObj, outObj)
 	default:
 		rec.Err = errors.New("rig: unknown form " + form)
